@@ -499,8 +499,7 @@ class Sim:
         self.limit = limit
         self.stack = []              # [[label, line]]
         self.completed = []          # node indices completed during this run, in order
-        self.handled_unwinds = []    # labels unwound by exceptions that a formula handled, in unwind order
-        self.edges = {}              # j -> set of labels recorded as direct predecessors
+        self.handled_unwinds = []    # (labels unwound by an exception that a formula handled, open-ended?)
 
     def top(self, j):
         try:
@@ -585,7 +584,6 @@ class Sim:
                     break
         except SimExc:
             self.stack.pop()
-            self.unwound_last = sp.label(j)
             raise
         self.stack.pop()
         if nd.cached:
